@@ -26,15 +26,18 @@ from clikit.ui.style.alignment import Alignment
 from clikit.ui.style.border_style import BorderStyle
 from clikit.ui.style.table_style import TableStyle
 
-from vf.sym import conc_bool, conc_int, untraced
+from vf.sym import conc_bool, conc_int, isolated, untraced
 
 PROPERTY = "C17"
 FUNCTIONS = ["ConsoleApplication.run", "HelpResolver.resolve/create_resolved_command", "Config.enable/disable_lenient_args_parsing", "DefaultApplicationConfig.create_io", "TableStyle.borderless/compact/ascii/solid",
              "BorderStyle.none/ascii/solid", "Table.render", "ApplicationHelp/CommandHelp.render", "ExceptionTrace.render (_FRAME_SNIPPET_CACHE)"]
 PART = {}
 LINES = ["greet bob", "greet", "num 5", "num abc", "num 1 2", "help", "help greet", "greet --help", "help num abc", "--version", "greet --zz", "nope",
-         "greet bob --ansi", "help greet --ansi", "loose 1 2 3", "help loose", "-q greet bob", "num 7 -vvv"]
-BOUNDS = {"quick": "3 runs on one application, each line from an 18-line menu; 4 table style kinds x 5 customisations x creation orders; double rendering of tables, help pages and error traces",
+         "greet bob --ansi", "help greet --ansi", "loose 1 2 3", "help loose", "-q greet bob", "num 7 -vvv",
+         "remote -h", "help remote", "remote add o extra", "fail -vvv --ansi", "fail -vvv --no-ansi"]
+# quick: second and third run from this sub-menu (every kind of line once)
+SHORT = [0, 3, 4, 6, 7, 8, 10, 13, 14, 18, 20, 21, 22]
+BOUNDS = {"quick": "3 runs on one application, first line from a 23-line menu, the others from a 13-line sub-menu (quick) / the full menu (thorough); 4 table style kinds x 5 customisations x creation orders; double rendering of tables, help pages and error traces",
           "thorough": "additionally 4 runs whose first line is an invalid value / failing help / unknown option / --ansi help"}
 OUTSIDE = ["sequences of 5-6 runs", "re-using one RawArgs OBJECT for two runs (each run gets a fresh StringArgs/ArgvArgs of its line): HelpResolver.resolve removes the leading 'help' token from the raw args it is given - observed, but the statement quantifies over command lines",
            "process-wide state outside clikit (pastel, crashtest)"]
@@ -54,6 +57,10 @@ def _handler(tag):
     return cb
 
 
+def _failing(args, io):
+    raise ValueError("handler failed")
+
+
 def build():
     cfg = DefaultApplicationConfig("app", "1.0")
     cfg.set_catch_exceptions(True)
@@ -70,6 +77,14 @@ def build():
     lo.add_argument("one", Argument.OPTIONAL, "One")
     lo.enable_lenient_args_parsing()
     lo.set_handler(CallbackHandler(_handler("loose")))
+    r = cfg.create_command("remote")                      # a strict command with a lenient sub-command
+    r.set_handler(CallbackHandler(_handler("remote")))
+    ra = r.create_sub_command("add")
+    ra.add_argument("name", Argument.REQUIRED, "Name")
+    ra.enable_lenient_args_parsing()
+    ra.set_handler(CallbackHandler(_handler("remote add")))
+    f = cfg.create_command("fail")
+    f.set_handler(CallbackHandler(_failing))
     return ConsoleApplication(cfg)
 
 
@@ -80,13 +95,21 @@ def _run(app, line):
     return (status, out.fetch(), err.fetch(), list(CALLS))
 
 
+def _shared_runs(idx):
+    app = build()
+    return [_run(app, LINES[k]) for k in idx]
+
+
+def _fresh_run(k):
+    return _run(build(), LINES[k])
+
+
 def _sequence_case(idx):
-    shared = build()
-    for k in idx:
-        line = LINES[k]
-        got = _run(shared, line)
-        fresh = _run(build(), line)
-        if got != fresh:
+    # the shared application runs the whole sequence in one forked child; every reference run gets a child of its own, so that
+    # neither the application object nor process-wide state (class-level caches) of earlier runs can reach the reference
+    got = isolated(_shared_runs, idx)
+    for i, k in enumerate(idx):
+        if got[i] != isolated(_fresh_run, k):
             return False
     return True
 
@@ -96,11 +119,12 @@ def sequence(k1: int, k2: int, k3: int, k4: int) -> bool:
     pre: 0 <= k1 < len(LINES) and 0 <= k2 < len(LINES) and 0 <= k3 < len(LINES) and 0 <= k4 < len(LINES)
     pre: k1 == PART["k1"] and (PART.get("k2") is None or k2 == PART["k2"])
     pre: PART["n"] > 3 or k4 == 0
+    pre: not PART.get("short") or (k2 in SHORT and k3 in SHORT)
     post: _
     """
     n = len(LINES) - 1
     idx = [conc_int(k, 0, n) for k in (k1, k2, k3, k4)][: PART["n"]]
-    return untraced(_sequence_case, idx)
+    return _sequence_case(idx)
 
 
 def sequence_twin(k1: int, k2: int, k3: int, k4: int) -> bool:
@@ -110,9 +134,7 @@ def sequence_twin(k1: int, k2: int, k3: int, k4: int) -> bool:
     """
     # reachability twin: after a failing help request a too-many-arguments line is still rejected (status 1) and compared
     k2 = conc_int(k2, 0, len(LINES) - 1)
-    shared = untraced(build)
-    untraced(_run, shared, LINES[8])
-    return not (LINES[k2] == "num 1 2" and untraced(_run, shared, LINES[k2])[0] == 1 and untraced(_sequence_case, [8, k2]))
+    return not (LINES[k2] == "num 1 2" and isolated(_shared_runs, [8, k2])[1][0] == 1 and _sequence_case([8, k2]))
 
 
 # ---------------------------------------------------------------- styles
@@ -204,6 +226,21 @@ def _twice_case(kind, variant):
         comp.render(io1)
         comp.render(io2)
         return io1.fetch_output() == io2.fetch_output() and io1.fetch_output() != ""
+    if kind == 3:
+        from clikit.ui.components.choice_question import ChoiceQuestion
+        import clikit.ui.components.question as qmod
+        qmod.Question._has_stty_available = lambda self: False
+        q = ChoiceQuestion("Pick", ["a", "b", "c"])
+        q.set_max_attempts([None, 2, 3, 4][variant % 4])
+        script = ["zz\nb\n", "b\n", "zz\nzz\nb\n"][variant % 3] if variant % 4 != 1 or variant % 3 != 2 else "zz\nb\n"
+        outs = []
+        for _ in range(2):                       # the same question object presented twice with the same input
+            io = BufferedIO(script)
+            try:
+                outs.append(("ok", q.ask(io), io.fetch_error()))
+            except Exception as e:
+                outs.append(("exc", type(e).__name__, io.fetch_error()))
+        return outs[0] == outs[1] and outs[0][0] == "ok" and outs[0][1] == "b"
     try:
         _boom(variant % 3)
     except ValueError as e:
@@ -219,10 +256,10 @@ def _twice_case(kind, variant):
 
 def twice(kind: int, variant: int) -> bool:
     """
-    pre: 0 <= kind <= 2 and 0 <= variant <= 11
+    pre: 0 <= kind <= 3 and 0 <= variant <= 11
     post: _
     """
-    return untraced(_twice_case, conc_int(kind, 0, 2), conc_int(variant, 0, 11))
+    return untraced(_twice_case, conc_int(kind, 0, 3), conc_int(variant, 0, 11))
 
 
 def conditions(tier):
@@ -234,9 +271,9 @@ def conditions(tier):
         plan += [(k1, k2, 4) for k1 in (3, 8, 10, 13) for k2 in range(len(LINES))]       # 4 runs after an invalid line / failing help / unknown option / --ansi help
     for k1, k2, nruns in plan:
         if True:
-            conds.append({"name": "sequence[%r%s]" % (LINES[k1], "" if k2 is None else "," + repr(LINES[k2])), "fn": sequence, "timeout": t, "part": {"k1": k1, "k2": k2, "n": nruns},
+            conds.append({"name": "sequence[%r%s]" % (LINES[k1], "" if k2 is None else "," + repr(LINES[k2])), "fn": sequence, "timeout": t, "part": {"k1": k1, "k2": k2, "n": nruns, "short": quick},
                           "bounds": "runs: %r, then %s, each from %r, on one application vs fresh applications" % (LINES[k1], "2 more lines" if k2 is None else "%r and 2 more lines" % LINES[k2], LINES)})
     conds.append({"name": "sequence_twin", "fn": sequence_twin, "timeout": t, "expect": "refute", "part": {"k1": 8, "n": 2}, "bounds": "reachability twin"})
     conds.append({"name": "styles", "fn": styles, "timeout": t, "bounds": "first style kind x second kind x 5 in-place customisations x third kind; border style factories"})
-    conds.append({"name": "twice", "fn": twice, "timeout": t, "bounds": "tables (4 styles, wrapped cells), help pages (application and 4 commands), error traces (3 depths x 4 verbosities) rendered twice"})
+    conds.append({"name": "twice", "fn": twice, "timeout": t, "bounds": "tables (4 styles, wrapped cells), help pages (application and 4 commands), error traces (3 depths x 4 verbosities) rendered twice; a choice question presented twice (4 attempt limits x 3 scripts)"})
     return conds
